@@ -808,6 +808,16 @@ class spawn(SpawnBase):
         self.stdout.flush()
         self._buffer = self.buffer_type()
         self._before = self.buffer_type()
+        held = b''
+        if self.encoding is not None:
+            # The last read before the session may have ended inside a
+            # multi-byte character: its first bytes are held by the decoder,
+            # the rest will be copied below as bytes.  Hand them over too
+            # (and to the session's read log, which decodes on its own).
+            held = self._decoder.getstate()[0]
+            if held:
+                os.write(self.STDOUT_FILENO, held)
+                self._decoder.reset()
         if escape_character is not None and PY3:
             # (before the terminal is switched to raw mode: this raises for
             # a character that is not Latin-1)
@@ -815,7 +825,8 @@ class spawn(SpawnBase):
         mode = tty.tcgetattr(self.STDIN_FILENO)
         tty.setraw(self.STDIN_FILENO)
         try:
-            self.__interact_copy(escape_character, input_filter, output_filter)
+            self.__interact_copy(escape_character, input_filter, output_filter,
+                                 held)
         finally:
             tty.tcsetattr(self.STDIN_FILENO, tty.TCSAFLUSH, mode)
 
@@ -841,7 +852,8 @@ class spawn(SpawnBase):
         return os.read(fd, 1000)
 
     def __interact_copy(
-        self, escape_character=None, input_filter=None, output_filter=None
+        self, escape_character=None, input_filter=None, output_filter=None,
+        held=b''
     ):
 
         '''This is used by the interact() method.
@@ -855,6 +867,9 @@ class spawn(SpawnBase):
                 'read': codecs.getincrementaldecoder(self.encoding)('replace'),
                 'send': codecs.getincrementaldecoder(self.encoding)('replace'),
             }
+            # (the beginning of a character that was read before the session)
+            decoders['read'].decode(held)
+
             def log(data, direction):
                 self._log(decoders[direction].decode(data), direction)
         else:
